@@ -116,9 +116,9 @@ def prepass(text, log):
     text, k = re.subn(r"crate::darling::export::identity::<\s*fn\(\)\s*->\s*crate::darling::Result<Self>\s*>\((\|\|[^;]*?)\)\(\)", r"(\1)()", text, flags=re.S)
     if k:
         log.append(f"R7b:identity::<fn()->Result<Self>>(closure)() -> (closure)() x{k}")
-    text, k = re.subn(r"crate::darling::export::ToString::to_string\(\s*&__attr\.path\(\)\.clone\(\)\.into_token_stream\(\)\s*\)", "crate::attr_path_string(__attr)", text)
+    text, k = re.subn(r"crate::darling::util::path_to_string\(\s*__attr\.path\(\)\s*\)", "crate::attr_path_string(__attr)", text)
     if k:
-        log.append(f"R11b:to_string(&attr.path().clone().into_token_stream()) -> attr_path_string(attr) x{k}")
+        log.append(f"R11b:path_to_string(attr.path()) -> attr_path_string(attr) (the attribute's name, a function of the attribute) x{k}")
     text, k = re.subn(r'&\s*format!\(\s*"((?:struct|enum) with )\{\}"\s*,\s*(\w+)\s*\)', r'&crate::fmt_with("\1", &\2)', text)
     if k:
         log.append(f"R11:format!(\"struct with {{}}\", set) -> fmt_with(prefix, &set) x{k}")
@@ -1002,7 +1002,11 @@ def elem_template(d, gen_id, mode="full"):
     w("}")
     elty = {"FromDeriveInput": "DeriveInput", "FromField": "Field", "FromAttributes": "Seq<Attribute>"}[d["trait"]]
     w(f"pub open spec fn efin_{n}<{full_gb}>(el: {elty}) -> Result<{n}<{full_tps}>> {{")
-    w(f"    let w = awalk_{n}::<{tps}>({E['attrs'] if d['trait'] != 'FromAttributes' else 'el'});")
+    if will_walk:
+        w(f"    let w = awalk_{n}::<{tps}>({E['attrs'] if d['trait'] != 'FromAttributes' else 'el'});")
+    else:
+        # neither attributes(..) nor an effective forward_attrs: no attribute can have any effect (C08)
+        w(f"    let w = W{n} {{ st: init_{n}::<{tps}>(), fwd: Seq::<Attribute>::empty() }};")
     w(f"    let s = chk_{n}::<{tps}>(w.st);")
     w("    if s.errs.len() > 0 { Err(e_multiple(s.errs)) } else {")
     mg_inits = ", ".join(f"{k}: {E['magic'][k][1]}" for k in d["magic"])
@@ -1061,6 +1065,8 @@ def quick_elems():
         elem_desc("D2", "FromAttributes", [f("x", multiple=True), f("y")], ["cfgx"]),
         elem_desc("D3", "FromDeriveInput", [f("only")], ["one"], magic=["ident"]),
         elem_desc("D4", "FromDeriveInput", [f("v", default="trait")], ["cfg_a"], forward=[], magic=["attrs", "ident"]),
+        elem_desc("D6", "FromDeriveInput", [f("z", skip=True)], [], forward=[], magic=["attrs", "ident"]),
+        elem_desc("D7", "FromField", [f("q", default="path")], ["ns::deep", "plain"], forward=["ns::doc"], magic=["attrs"]),
         elem_desc("D5", "FromField", [f("keepers", multiple=True)], ["one", "two", "three"], forward=["keep"], magic=["attrs", "vis"], allow_unknown=True),
     ]
 
